@@ -289,4 +289,60 @@ Proof. vm_compute. repeat split. Qed.
 Example C04_end_to_end_slice_unlocated :
   e2e_guards "a[5:9]" doc1 = false /\
   e2e_gathered "a[5:9]" doc1 = [(Some 2%N, PInt 5)] /\ del_all_located doc1 (e2e_gathered "a[5:9]" doc1) = false.
+(* Round `compose`: C04's hypothesis DERIVED for the read-side model (Proofs/EvalSet.v).
+   For a path of the C01 fragment (guards of C01_required_sem_partial: the strict reading of the
+   specification marks nothing - F12a -, the document is not null; C02's slices_last; no virtual
+   array-slice result), a loaded document (every container object once, keys and set members are
+   leaves, keys pairwise different) and an answer none of whose results is the root or a set member
+   (ce_elem_parent: computable on the answer), EVERY gathered coordinate locates a node:
+   del_all_located holds - from C02_results_located (parent[parentref] is the node, the ancestry
+   walks from the root).  Hence the delete is exactly delete_spec at the locations of exactly the
+   nodes sem_doc selects, with no hypothesis about the answer left but ce_elem_parent.
+   (Set members: C02's child relation says only "a member of that set", not that the parentref
+   spells it; they stay under the hypothesis of C04_delete_exact_end_to_end.) *)
+From YP Require Import SpecC01 EvalLocAll C03spec C03e2e EvalSet.
+
+Theorem C04_gathered_located_end_to_end :
+  forall lit re_search nstr vstr kw_handler creator segs d,
+    c01_frag (PPath segs) = true -> is_null_node d = false ->
+    specified (sem_doc lit re_search nstr true (PPath segs) d) = true ->
+    slices_last segs = true -> ce_plain (sem_doc lit re_search nstr false (PPath segs) d) = true ->
+    wf_doc d -> ce_flat d = true -> mkeys_distinct d = true ->
+    forallb ce_elem_parent (fst (get_required lit re_search nstr vstr kw_handler creator (PPath segs) d)) = true ->
+    del_all_located d (map pc_pair (gathered lit re_search nstr vstr kw_handler creator (PPath segs) d)) = true.
+Proof. exact gathered_all_located. Qed.
+Print Assumptions C04_gathered_located_end_to_end.
+
+Theorem C04_delete_sem_end_to_end :
+  forall lit re_search nstr vstr kw_handler creator segs d,
+    c01_frag (PPath segs) = true -> is_null_node d = false ->
+    specified (sem_doc lit re_search nstr true (PPath segs) d) = true ->
+    slices_last segs = true -> ce_plain (sem_doc lit re_search nstr false (PPath segs) d) = true ->
+    wf_doc d -> ce_flat d = true -> ce_small d = true -> mkeys_distinct d = true ->
+    forallb ce_elem_parent (fst (get_required lit re_search nstr vstr kw_handler creator (PPath segs) d)) = true ->
+    (* the gathered coordinates are the locations of exactly the selected nodes, in order ... *)
+    Forall2 (ce_holds d) (map pc_pair (gathered lit re_search nstr vstr kw_handler creator (PPath segs) d))
+            (sem_doc lit re_search nstr false (PPath segs) d) /\
+    (* ... and the delete removes exactly the nodes at those locations *)
+    delete_nodes (map (fun c => CNode c false) (gathered lit re_search nstr vstr kw_handler creator (PPath segs) d)) d
+    = MDone (delete_spec d (map pc_pair (gathered lit re_search nstr vstr kw_handler creator (PPath segs) d))).
+Proof. exact delete_required_e2e. Qed.
+Print Assumptions C04_delete_sem_end_to_end.
+
+(* non-vacuity on doc1 = {a: [1, [], 1, x], b: 5}: a.* (the shared int twice), a[-1], ** *)
+Definition e2e_guards (text : string) : bool :=
+  match prepare 20 text with
+  | Ok (PPath segs) =>
+      let p := PPath segs in
+      c01_frag p && specified (sem_doc e2e_lit e2e_re (fun _ => "") true p doc1) && slices_last segs &&
+      ce_plain (sem_doc e2e_lit e2e_re (fun _ => "") false p doc1) && wf_docb doc1 && ce_flat doc1 && ce_small doc1 &&
+      mkeys_distinct doc1 &&
+      forallb ce_elem_parent (fst (get_required e2e_lit e2e_re (fun _ => "") (fun _ => "") e2e_kw e2e_cr p doc1))
+  | _ => false
+  end.
+Example C04_delete_sem_end_to_end_nonvacuous :
+  e2e_guards "a.*" = true /\ e2e_guards "a[-1]" = true /\ e2e_guards "**" = true /\ e2e_guards "/b" = true /\
+  del_all_located doc1 (e2e_gathered "a.*" doc1) = true /\
+  erase (delete_spec doc1 (e2e_gathered "a[-1]" doc1))
+  = DMap [ (PStr "a", DSeq [DLeaf (PInt 1); DSeq []; DLeaf (PInt 1)]); (PStr "b", DLeaf (PInt 5)) ].
 Proof. vm_compute. repeat split. Qed.
